@@ -164,6 +164,7 @@ def _o_rem_dup(call):
 
 
 def install():
+    probe.enable_recall("C06.recall", every=5)
     m = "esutil.numpy_util:"
     probe.instrument(m + "match", [_o_match])
     probe.instrument(m + "match_multi", [_o_match])
